@@ -1,10 +1,11 @@
 #!/bin/bash
-# offline setup: nothing to fetch; warm the caches the checks use (replay crate incl. the physics crate; Kani build of the detector crate)
+# offline setup: nothing to fetch; warm the caches the checks use (replay crate incl. physics + analysis libraries, analysis binaries)
 cd "$(dirname "$0")"
 mkdir -p work evidence
 python3 -c "
 import sys; sys.path.insert(0,'.')
-from vtool import native
+from vtool import native, csvcheck
 print('replay crate:', native._build('/repo', '$(pwd)', physics=True))
+print('analysis binaries:', csvcheck.build('/repo', '$(pwd)', ['alpha-g-trg-scalers', 'alpha-g-vertices', 'alpha-g-chronobox-timestamps'])[1] or 'ok')
 " || true
 exit 0
